@@ -998,9 +998,13 @@ def _impl_live_direct(env):
         res = outcome(lambda: p.memory_maps(grouped=False), conv)
         # the three views agree with each other and with statm on the paused child
         statm = [int(x) for x in child.read("statm").split()]
-        mi, mfi = p.memory_info(), p.memory_full_info()
-        rows = p.memory_maps(grouped=False)
-        grouped = p.memory_maps(grouped=True)
+        try:
+            mi, mfi = p.memory_info(), p.memory_full_info()
+            rows = p.memory_maps(grouped=False)
+            grouped = p.memory_maps(grouped=True)
+        except Exception as e:       # an answer of psutil (judged), not a failure of the harness
+            from pv.canon import exc_name
+            return T("LiveMismatch", "psutil raised over the real /proc", exc_name(e))
         if (mi.rss, mi.vms, mi.shared) != (statm[1] * page, statm[0] * page, statm[2] * page):
             return T("LiveMismatch", "memory_info vs statm", list(mi), statm)
         if sum(r.rss for r in rows) != sum(g.rss for g in grouped) or sum(r.pss for r in rows) != sum(g.pss for g in grouped):
@@ -1083,16 +1087,15 @@ def _impl_big(case, coq, env):
             out.append(outcome(p.memory_full_info, conv))
         mode[0] = None
         os.remove(rpath)
-        with p.oneshot() if hasattr(p, "oneshot") else psutil.Process(pid).oneshot():
-            pass
         pp = psutil.Process(pid)
         with pp.oneshot():
-            pp.memory_maps(grouped=False)                                  # fills the oneshot cache of the smaps file
+            outcome(lambda: pp.memory_maps(grouped=False))                 # fills the oneshot cache of the smaps file
             out.append(outcome(pp.memory_full_info, conv))
         fp.write(pid, "smaps_rollup", rollup)
         out.append(outcome(p.memory_full_info, conv))                      # the roll-up as the source
-        rows = p.memory_maps(grouped=False)
-        out.append(Val([sum(r.private_clean + r.private_dirty for r in rows), sum(r.pss for r in rows), sum(r.swap for r in rows), len(rows)]))
+        out.append(outcome(lambda: p.memory_maps(grouped=False),
+                           lambda rows: [sum(r.private_clean + r.private_dirty for r in rows), sum(r.pss for r in rows),
+                                         sum(r.swap for r in rows), len(rows)]))
         return out
     finally:
         builtins.open = real_open
